@@ -39,6 +39,28 @@ class S(explore.Spec):
 
   def extra_ops(self, g, env, hist):
     out = []
+    try:
+      lines = [l for l in g.lines if not observe.is_virtual(l)]
+    except Exception:
+      lines = []
+    texts = [observe.safe_str(l) for l in lines]
+    if self.version == "gfa1" and getattr(self, "conv_ops", False):
+      # only when every segment has a length and every overlap is specified
+      # (else the conversion is refused) and some link has no ID yet
+      if any(t[0] in "LC" and "ID:Z:" not in t for t in texts) and \
+          not any(t[0] in "LC" and t.split("\t")[5 if t[0] == "L" else 6] == "*"
+                  for t in texts) and \
+          not any(t[0] == "S" and t.split("\t")[2] == "*" and "LN:i:" not in t
+                  for t in texts) and not any(t[0] == "P" for t in texts):
+        out.append(("conv",))
+    if self.version == "gfa2" and getattr(self, "share_ops", False):
+      present = [t for t in texts if t[0] == "E"]
+      for u in self.universe:
+        if u[0] == "E" and u not in texts:
+          for d in present:
+            if d.split("\t")[2] == u.split("\t")[2]:
+              out.append(("addshare", d, u, "sid1"))
+              break
     for l, bad in REFUSED_LATE.get(self.version, []):
       try:
         x = g.line(bad)
@@ -77,7 +99,16 @@ S(name="c02.g2", universe=universe.G2, version="gfa2", rename_targets=("z", "b")
 S(name="c02.g1core", universe=universe.G1_CORE, version="gfa1",
   rename_targets=("Z",), name_unnamed=("n1",), unname_ops=True)
 S(name="c02.g2core", universe=universe.G2_CORE, version="gfa2",
-  rename_targets=("z",), name_unnamed=("n1",))
+  rename_targets=("z",), name_unnamed=("n1",), share_ops=True)
+# GFA1 with lengths and specified overlaps, so that the graph can be converted
+# in the middle of a history (conversion assigns IDs to the unnamed links)
+TC = "\t".join
+G1_CONV = [TC(["S", "A", "*", "LN:i:4"]), TC(["S", "B", "ACGT"]), TC(["S", "C", "*", "LN:i:4"]),
+           TC(["L", "A", "+", "B", "+", "1M"]), TC(["L", "B", "+", "C", "-", "2M"]),
+           TC(["L", "A", "+", "A", "-", "1M"]), TC(["C", "A", "+", "B", "+", "0", "2M"]),
+           TC(["L", "C", "+", "A", "+", "1M", "ID:Z:x"])]
+S(name="c02.g1conv", universe=G1_CONV, version="gfa1", rename_targets=("Z",),
+  name_unnamed=("n1",), unname_ops=True, conv_ops=True)
 S(name="c02.g1v3", universe=universe.G1_CORE, version="gfa1", vlevel=3,
   rename_targets=("Z",))
 
@@ -96,10 +127,11 @@ def run(ctx):
       "observation through the public API only (reference fields, "
       "back-reference properties, Gfa.line, Gfa.lines)"]
   if ctx.quick:
-    plan = [("c02.g1", 4), ("c02.g2", 4), ("c02.g1core", 5), ("c02.g2core", 5)]
+    plan = [("c02.g1", 4), ("c02.g2", 4), ("c02.g1core", 5), ("c02.g2core", 5),
+            ("c02.g1conv", 4)]
   else:
     plan = [("c02.g1", 5), ("c02.g2", 5), ("c02.g1core", 7), ("c02.g2core", 7),
-            ("c02.g1v3", 5)]
+            ("c02.g1v3", 5), ("c02.g1conv", 6)]
   if ctx.slice:
     plan = [(n, max(2, d - 2)) for n, d in plan[:2]]
   done = {}
